@@ -18,6 +18,8 @@ import ErgoVerif.Lemmas.Stream
 import ErgoVerif.Lemmas.Frame
 import ErgoVerif.Lemmas.Envelope
 import ErgoVerif.Lemmas.Request
+import ErgoVerif.Model.Ack
+import ErgoVerif.Lemmas.Remote
 import ErgoVerif.Model.Link
 namespace ErgoVerif.Props.C12
 open ErgoVerif.Stream ErgoVerif.Generated.Proto
@@ -242,5 +244,121 @@ theorem C12_reply_unbuffered_lost : ∃ ls s, run 0 init ls = some s ∧ s.dropp
 example : (run requestChanCap init [.replyArrives, .enterWait, .recv]).map (·.req) = some .gotReply := by decide
 
 end Request
+
+/-! ## End to end: writer → byte stream under any segmentation → reader → receive case -/
+section EndToEnd
+open ErgoVerif.Frame
+
+/-- every frame a writer method produces is a frame the link reader accepts -/
+theorem C12_writer_frames_wellformed (k : Kind) (hw : k ∈ wireKinds) (m : Msg) (hf : m.fits k) (max : Nat)
+    (hmax : max > 0 → (encode k m).length ≤ max) : WF (linkCfg max) (encode k m) :=
+  ErgoVerif.Remote.encode_wf_wire k hw m hf max hmax
+
+/-- For every list of messages (any kinds, any field values that fit, any payload bytes, any names),
+    every receiver limit the frames respect, and EVERY way the concatenated frames are cut into
+    segments: the reader hands over exactly the frames that were written, in order, and stays open
+    with nothing left over; each frame is dispatched by its type byte to the receive case of the
+    kind that wrote it, which recovers the payload bytes, the name and every header field — the
+    arguments of the Route* call are those of the Send*/Call* call. -/
+theorem C12_end_to_end (max : Nat) (hmax : max = 0 ∨ 8 ≤ max) (sent : List (Kind × Msg))
+    (hk : ∀ km ∈ sent, km.1 ∈ wireKinds ∧ LayoutOK km.1 = true ∧ km.2.fits km.1 ∧
+          (max > 0 → (encode km.1 km.2).length ≤ max) ∧ (encode km.1 km.2).length < 2 ^ 32)
+    (chunks : List (List UInt8))
+    (hj : chunks.flatten = (sent.map (fun km => encode km.1 km.2)).flatten) :
+    let out := readAll (linkCfg max) RState.init chunks
+    out.1 = ⟨[], none⟩ ∧
+    out.2 = sent.map (fun km => encode km.1 km.2) ∧
+    ∀ km ∈ sent, ∃ p, (match (encode km.1 km.2)[7]? with
+                        | some t => (kindOf t.toNat).map (fun k => parse k (encode km.1 km.2))
+                        | none => none) = some (.ok p) ∧
+                      p.payload = km.2.payload ∧
+                      p.name = (if km.1.inlineName then km.2.name else []) ∧
+                      ∀ x ∈ expectedFields km.1 km.2, x ∈ p.fields :=
+  ErgoVerif.Remote.pipeline max hmax sent hk chunks hj
+
+end EndToEnd
+
+/-! ## Important delivery: the sender learns exactly the remote result -/
+section Important
+open ErgoVerif.Ack
+
+/-- the two `switch` statements agree: every error that has a code of its own is mapped back to
+    itself, success to success, the escape code to "decode the error that follows"; codes are distinct -/
+theorem C12_error_codes :
+    (∀ e ∈ errCodeW, e.1 ≠ "default" → (e.2, e.1) ∈ errCodeR) ∧
+    (∀ e ∈ errCodeW, e.1 = "default" → (e.2, "decode") ∈ errCodeR) ∧
+    (errCodeW.map (·.2)).Nodup ∧ (errCodeR.map (·.1)).Nodup ∧ (errCodeW.map (·.1)).Nodup ∧
+    ("nil", 0) ∈ errCodeW := by decide
+
+/-- the acknowledgement decodes to the remote result — for success, for each error with its own
+    code, and (under the EDF round-trip HYPOTHESIS for errors) for any other error -/
+theorem C12_ack_roundtrip (encE : List UInt8 → List UInt8) (decE : List UInt8 → Option (List UInt8))
+    (hrt : ∀ t, decE (encE t) = some t) (r : RErr)
+    (hr : ∀ n, r = .named n → n ≠ "nil" ∧ n ≠ "default" ∧ (codeOf n).isSome) :
+    ∃ c rest, encodeAck encE r = some (c, rest) ∧ decodeAck decE c rest = some r := by
+  have c0 : codeOf "nil" = some 0 := by decide
+  have c1 : codeOf "gen.ErrProcessUnknown" = some 1 := by decide
+  have c2 : codeOf "gen.ErrProcessMailboxFull" = some 2 := by decide
+  have c3 : codeOf "gen.ErrProcessTerminated" = some 3 := by decide
+  have cd : codeOf "default" = some 255 := by decide
+  have n0 : nameOf 0 = some "nil" := by decide
+  have n1 : nameOf 1 = some "gen.ErrProcessUnknown" := by decide
+  have n2 : nameOf 2 = some "gen.ErrProcessMailboxFull" := by decide
+  have n3 : nameOf 3 = some "gen.ErrProcessTerminated" := by decide
+  have nd : nameOf 255 = some "decode" := by decide
+  cases r with
+  | ok => exact ⟨0, [], by simp [encodeAck, c0], by simp [decodeAck, n0]⟩
+  | other t => exact ⟨255, encE t, by simp [encodeAck, cd], by simp [decodeAck, nd, hrt]⟩
+  | named n =>
+    obtain ⟨h1, h2, h3⟩ := hr n rfl
+    -- the table is finite: every name with a code is one of the generated ones
+    have hn : n = "gen.ErrProcessUnknown" ∨ n = "gen.ErrProcessMailboxFull" ∨ n = "gen.ErrProcessTerminated" := by
+      simp only [codeOf, errCodeW, List.find?, Option.isSome_map] at h3
+      by_cases a : n = "gen.ErrProcessUnknown"; · exact Or.inl a
+      by_cases b : n = "gen.ErrProcessMailboxFull"; · exact Or.inr (Or.inl b)
+      by_cases c : n = "gen.ErrProcessTerminated"; · exact Or.inr (Or.inr c)
+      have a' : ¬ ("gen.ErrProcessUnknown" = n) := fun h => a h.symm
+      have b' : ¬ ("gen.ErrProcessMailboxFull" = n) := fun h => b h.symm
+      have c' : ¬ ("gen.ErrProcessTerminated" = n) := fun h => c h.symm
+      have d' : ¬ ("nil" = n) := fun h => h1 h.symm
+      have e' : ¬ ("default" = n) := fun h => h2 h.symm
+      simp [a', b', c', d', e'] at h3
+    rcases hn with rfl | rfl | rfl
+    · exact ⟨1, [], by simp [encodeAck, c1], by simp [decodeAck, n1]⟩
+    · exact ⟨2, [], by simp [encodeAck, c2], by simp [decodeAck, n2]⟩
+    · exact ⟨3, [], by simp [encodeAck, c3], by simp [decodeAck, n3]⟩
+
+/-- an important send reports success exactly when the remote Route* call returned nil, and
+    otherwise the remote error (both flags on; errors as in `C12_ack_roundtrip`) -/
+theorem C12_important (encE : List UInt8 → List UInt8) (decE : List UInt8 → Option (List UInt8))
+    (hrt : ∀ t, decE (encE t) = some t) (r : RErr)
+    (hr : ∀ n, r = .named n → n ≠ "nil" ∧ n ≠ "default" ∧ (codeOf n).isSome) :
+    importantSend encE decE true true r = .result r ∧
+    (importantSend encE decE true true r = .result .ok ↔ r = .ok) ∧
+    (r ≠ .ok → importantCall encE decE true true r = .result r) ∧
+    importantSend encE decE false true r = .unsupported := by
+  obtain ⟨c, rest, he, hd⟩ := C12_ack_roundtrip encE decE hrt r hr
+  have h1 : importantSend encE decE true true r = .result r := by simp [importantSend, he, hd]
+  refine ⟨h1, ?_, ?_, by simp [importantSend]⟩
+  · rw [h1]; constructor
+    · intro h; injection h
+    · intro h; rw [h]
+  · intro hne; simp [importantCall, hne, h1]
+
+/-- the reference travels sender → receiver → sender unchanged: the word the important Send* kinds
+    store at 17..25 is the word the receive cases read for the acknowledgement, and the
+    acknowledgement kind carries the three reference words at the places its receive case reads -/
+theorem C12_ack_reference :
+    (∀ t ∈ [101, 102, 103, 104], ∃ k, ErgoVerif.Frame.kindOf t = some k ∧
+        ⟨"options.Ref.ID[0]", 17, 8, 0, "important"⟩ ∈ k.writes ∧ ⟨"options.Ref.ID[0]", 17, 8, 0, ""⟩ ∈ k.reads) ∧
+    (∃ k, ErgoVerif.Frame.kindOf 130 = some k ∧
+        ∀ i ∈ [(0, 25), (1, 33), (2, 41)],
+          ⟨s!"options.Ref.ID[{i.1}]", i.2, 8, 0, ""⟩ ∈ k.writes ∧ ⟨s!"options.Ref.ID[{i.1}]", i.2, 8, 0, ""⟩ ∈ k.reads) := by
+  decide
+
+example : importantSend id some true true (.named "gen.ErrProcessMailboxFull") = .result (.named "gen.ErrProcessMailboxFull") := by decide
+example : importantSend id some true false .ok = .noAck := by decide
+
+end Important
 
 end ErgoVerif.Props.C12
